@@ -1,6 +1,6 @@
 SPECIFICATION Spec
 CONSTANTS
-  Ns = {4, 6, 8}
+  Ns = {4, 6}
   Rs = {1, 2, 3}
   Spans = {1, 3}
   Mashes = {1, 2}
